@@ -1489,7 +1489,8 @@ pub fn check_c09(prog: &NetProgram, res: &NetResult, info: &mut RunInfo) {
                 if matches!(r.ev, Ev::Start { stage, .. } if stage > 0) && !seen_stage0 && d.from_t == 0 && r.t == 0 {
                     continue;
                 }
-                let user_code = matches!(r.ev, Ev::Recv { .. } | Ev::Beat { .. } | Ev::Task { .. } | Ev::Start { .. } | Ev::Offer { .. });
+                // (a processing element that is handed a message is part of the module's message handling)
+                let user_code = matches!(r.ev, Ev::Recv { .. } | Ev::Beat { .. } | Ev::Task { .. } | Ev::Start { .. } | Ev::Offer { .. } | Ev::PeIn { .. });
                 if matches!(r.ev, Ev::End { .. }) {
                     continue;
                 }
